@@ -16,7 +16,11 @@ correspondence:  (a) _get_numbers_distance on a grid of special values x max_ an
                  in t1 / t2 (sdelta): rebuilt in Coq, compared with the real one,
                  validity and the type-change guard evaluated (hypotheses of
                  C19_rough_range_partial); (f) zero_guard of
-                 C19_numbers_zero_partial evaluated in Coq and restated in Python.
+                 C19_numbers_zero_partial evaluated in Coq and restated in Python;
+                 (g) deep_distance computed by the model from the inputs alone
+                 (Diff/DiffModel.v diff + Dist/DistDiffModel.v delta view) in
+                 default and zip_ordered_iterables mode, with the hypotheses of
+                 C19_deep_distance_range_ordered (opcode tiling, type-change guard).
 direct oracle:   the statement itself on the public API (range, 0/absent for
                  equal inputs, positive for a non-empty default diff, never
                  raises) and on the number/date/time distance functions (range,
@@ -48,8 +52,8 @@ RULE = ("numbers: all ordered pairs of a grid of special ints/bools/floats/Decim
         "scalar vs container, different scalar types) x ignore_order x view x cutoff_distance_for_pairs; a case is "
         "non-trivial when the two inputs differ; distinct = distinct (inputs, configuration)")
 TRUSTED = [
-    "the delta-view dict is an INPUT of the rough-distance model (the diff algorithm itself is not modelled in this block): "
-    "the harness converts the dict the implementation actually consumed into the model's generic `dv` tree",
+    "in ignore_order mode the delta-view dict is an INPUT of the rough-distance model: the harness converts the dict the "
+    "implementation actually consumed into the model's generic `dv` tree; in ordered mode it is derived from Diff/DiffModel.v",
     "use_log_scale=True (math.log) is not modelled; numpy arrays only through the scalar formula of _get_numpy_array_distance",
     "Coq's primitive floats implement IEEE binary64 as CPython's float does (PrimFloat / FloatAxioms specification axioms)",
 ]
@@ -892,7 +896,40 @@ def oracle_pair(ctx, t1, t2, cfg, how):
     return d
 
 
-CONFIGS = [{}, {"ignore_order": True}, {"view": "tree"}, {"ignore_order": True, "view": "tree"},
+def diff_model_case(t1, t2, cfg, dist):
+    """The distance computed by the model from the inputs alone (Diff/DiffModel.v [diff] + the delta view of its
+    levels, Dist/DistDiffModel.v), the tiling hypothesis on the real difflib opcodes, and the type-change guard -
+    the hypotheses of C19_deep_distance_range_ordered.  Ordered mode only."""
+    from deepdiff import DeepDiff
+    from harness import diffcommon as D
+    zip_ = bool(cfg.get("zip_ordered_iterables", False))
+    kw = {k: v for k, v in cfg.items() if k not in ("view",)}
+    tree = DeepDiff(copy.deepcopy(t1), copy.deepcopy(t2), view="tree", **kw)
+    inc, guard = [], True
+    for lv in tree.get("type_changes", []):
+        a, b = lv.t1, lv.t2
+        try:
+            include = bool(type(b)(a) != b)
+        except Exception:
+            include = True
+        inc.append("(%s, %s, %s)" % (values.to_coq(a), values.to_coq(b), core.coq_bool(include)))
+        try:
+            guard = guard and (2 + (ilen(b) if include else 0) <= icount(a) + icount(b))
+        except Exception:
+            pass
+    ops = D.coq_ops_table(D.opcode_table(t1, t2))
+    cut = coq_float(float(cfg.get("cutoff_distance_for_pairs", 0.3)))
+    cfgc = D.coq_cfg(zip_, 0.33, True)
+    a, b = values.to_coq(t1), values.to_coq(t2)
+    expr = ("(let ops := tbl_ops %s in let inc := tbl_incl [%s] in "
+            "SL [sx_rough (deep_distance_of_diff hatom_deep (fun _ _ => nil) ops no_paths no_paths %s inc %s %s %s); "
+            "sx_bool (forallb (fun x : path * list opcode => ops_tile 0 0 (snd x)) %s); "
+            "sx_bool (tcs_ok inc (fst (diff hatom_deep (fun _ _ => nil) ops no_paths no_paths %s %s %s nil nil)))])") % (
+        ops, "; ".join(inc), cfgc, cut, a, b, ops, cfgc, a, b)
+    return expr, [obs_rough(dist), True, bool(guard)], guard
+
+
+CONFIGS = [{}, {"ignore_order": True}, {"zip_ordered_iterables": True}, {"view": "tree"}, {"ignore_order": True, "view": "tree"},
            {"cutoff_distance_for_pairs": 1.0}, {"ignore_order": True, "cutoff_distance_for_pairs": 1.0},
            {"ignore_order": True, "cutoff_distance_for_pairs": 0.1}, {"cutoff_distance_for_pairs": 0.5, "view": "tree"},
            {"ignore_order": True, "cutoff_distance_for_pairs": 0.6}]
@@ -905,10 +942,12 @@ def rough_part(ctx):
     ctx.note("recorder_installed", rec.installed)
     cases = []
     sd_cases = []
+    dm_cases = []
     seen_keys = set()
     try:
         for (t1, t2, how) in gen_pairs(ctx):
-            cfgs = [CONFIGS[0], CONFIGS[1]] + rng.sample(CONFIGS[2:], 2 if ctx.thorough else 1)
+            cfgs = [CONFIGS[0], CONFIGS[1]] + ([CONFIGS[2]] if (ctx.thorough or rng.random() < 0.5) else []) \
+                + rng.sample(CONFIGS[3:], 2 if ctx.thorough else 1)
             for cfg in cfgs:
                 rec.records.clear()
                 a, b = copy.deepcopy(t1), copy.deepcopy(t2)
@@ -982,12 +1021,29 @@ def rough_part(ctx):
                         if isinstance(x, bool) or not isinstance(x, (int, float)) or not (0 <= x <= 1):
                             ctx.fail({"kind": "pairing_distance", "t1": repr(r["t1"]), "t2": repr(r["t2"]), "config": cfg, "result": repr(x)},
                                      "distance %r used for pairing %s with %s is outside [0, 1]" % (x, repr(r["t1"]), repr(r["t2"])))
+                if d is not None and not cfg.get("ignore_order") and in_universe(t1) and in_universe(t2):
+                    from harness import diffcommon as D
+                    try:
+                        if D.in_model_guard(t1, t2) and not has_crash_key(t1) and not has_crash_key(t2):
+                            expr, exp, g = diff_model_case(t1, t2, cfg, d.get("deep_distance", None))
+                            dm_cases.append((expr, exp, {"t1": repr(t1), "t2": repr(t2), "config": cfg, "impl": repr(d.get("deep_distance", None))}))
+                            ctx.count("diff_model:" + ("zip" if cfg.get("zip_ordered_iterables") else "default") + ("/inside_guard" if g else "/outside_guard"))
+                            x = d.get("deep_distance", None)
+                            if g and x is not None and x > 1:
+                                ctx.break_("correspondence", {"name": "deep_distance_range_ordered", "t1": repr(t1), "t2": repr(t2),
+                                                              "meaning": "inside the type-change guard but deep_distance = %r" % (x,)})
+                        else:
+                            ctx.count("diff_model:outside_model_guard")
+                    except (TypeError, AssertionError, KeyError):
+                        ctx.count("diff_model:not_expressible")
                 if len(ctx.samples) < 4 and d is not None and nt and how.startswith("edit"):
                     ctx.sample({"t1": repr(t1)[:200], "t2": repr(t2)[:200], "config": cfg, "deep_distance": repr(d.get("deep_distance"))})
     finally:
         rec.uninstall()
     ctx.coq_cases("rough", HEADER, cases, shard=150, label="rough_distance")
     ctx.coq_cases("sdelta", HEADER, sd_cases, shard=150, label="delta_as_positions")
+    ctx.coq_cases("diffmodel", HEADER + "\nFrom DD Require Import Diff.Tree Diff.DiffModel Diff.DiffShow Dist.DistDiffModel.",
+                  dm_cases, shard=120, label="distance_from_diff_model")
 
 
 # ---------------------------------------------------------------------------
